@@ -364,8 +364,13 @@ SortedBy(seq, attr, fwd) ==
 \* unpaginated Query / Scan (no Limit, no ExclusiveStartKey)
 MatchSetN(cl, tbl, q) == { it \in Target(tbl, q.index).view : ReadMatchN(cl, q, it) = {"T"} }
 MatchSet(tbl, q) == { it \in Target(tbl, q.index).view : ReadMatchO(q, it) = {"T"} }
+\* a read with a ProjectionExpression (top-level names q.proj, the generators always include the key attributes): the items come
+\* back whole (the code at the pinned commit ignores the projection) or cut down to the projected attributes
+Restrict(it, names) == [a \in (DOMAIN it) \cap names |-> it[a]]
+ProjNames(q) == { q.proj[j] : j \in DOMAIN q.proj }
 ReadAllOKN(cl, tbl, q, r) ==
-  /\ EnumOf(r.items, MatchSetN(cl, tbl, q))
+  /\ \/ EnumOf(r.items, MatchSetN(cl, tbl, q))
+     \/ HasProj(q) /\ EnumOf(r.items, { Restrict(it, ProjNames(q)) : it \in MatchSetN(cl, tbl, q) })
   /\ r.count = Len(r.items)
   /\ (q.kind = "query" /\ Target(tbl, q.index).range.some) => SortedBy(r.items, Target(tbl, q.index).range.n, q.fwd)
 ReadAllOK(tbl, q, r) ==
